@@ -71,8 +71,6 @@ class Built:
         self.fail_beh = fail_beh
         self.canon: dict = {}
         self.placement: dict = {}
-        for t in range(1, cfg['n'] + 1):
-            self.placement[t] = self.rnd.randrange(6)
         self.fresh_prob = (shape_seed % 3) * 0.4      # 0, .4, .8: how often an equal but distinct instance is built
 
     def cls(self, t):
@@ -91,22 +89,20 @@ class Built:
             return self.canon[t]
         deps = self.cfg['deps'][t - 1]
         objs = [self.make(d, fresh=(self.rnd.random() < self.fresh_prob)) for d in deps]
-        shape = self.placement[t]
+        # the shape of the parameters is a function of (shape_seed, t) only, so that every instance of
+        # task t is built the same way (equal tasks); which dependency *instances* are used is not
+        srnd = random.Random(self.shape_seed * 1009 + t * 31 + 7)
         a, b = None, ()
         if objs:
-            if shape == 0:
+            if srnd.random() < 0.35:
                 a, rest = objs[0], objs[1:]
-                b = tuple(rest)
-            elif shape == 1:
-                b = list(objs)
-            elif shape == 2:
-                b = {'x': objs[0], 'rest': list(objs[1:])}
-            elif shape == 3:
-                b = [[objs[0]], {'k': {'kk': tuple(objs[1:])}}]
-            elif shape == 4:
-                a, b = objs[-1], {'dup': [objs[-1]], 'others': tuple(objs[:-1])}
+                if srnd.random() < 0.3:
+                    rest = objs            # the single-task parameter's task appears in the collection as well
             else:
-                b = tuple([o] for o in objs)
+                rest = objs
+            b = nest(list(rest), srnd, 3) if rest else ()
+            if is_task_obj(b):
+                b = [b]
         obj = self.cls(t)(tid=t, a=a, b=b, beh=self.behaviour(t))
         if t not in self.canon:
             self.canon[t] = obj
@@ -117,6 +113,40 @@ class Built:
         for i, t in enumerate(self.cfg['req']):
             out.append(self.make(t, fresh=(self.rnd.random() < self.fresh_prob / 2)))
         return out
+
+
+def is_task_obj(x):
+    return hasattr(x, 'tid')
+
+
+def nest(objs: list, rnd, depth: int):
+    """A random nesting of lists / tuples / string-keyed dicts holding exactly the given tasks.
+    Includes sibling containers of identical shape and size, singleton wrappers, duplicates."""
+    if not objs:
+        return rnd.choice([(), [], {}])
+    if depth <= 0:
+        return tuple(objs) if len(objs) > 1 else objs[0]
+    kind = rnd.choice(['flat-list', 'flat-tuple', 'each-dict', 'each-list', 'dict-split', 'list-split',
+                       'dict-of-dicts', 'dup', 'single'])
+    if kind == 'single' and len(objs) == 1:
+        return objs[0]
+    if kind == 'flat-list':
+        return list(objs)
+    if kind == 'flat-tuple':
+        return tuple(objs)
+    if kind == 'each-dict':
+        return [{'m': o} for o in objs]
+    if kind == 'each-list':
+        return tuple([o] for o in objs)
+    if kind == 'dict-of-dicts':
+        return {f'e{i}': {'m': o, 'w': i} for i, o in enumerate(objs)}
+    if kind == 'dup':
+        return {'dup': [objs[-1]], 'all': nest(objs, rnd, depth - 1), 'n': len(objs)}
+    cut = rnd.randrange(0, len(objs) + 1)
+    left, right = objs[:cut], objs[cut:]
+    if kind == 'dict-split':
+        return {'x': nest(left, rnd, depth - 1), 'y': nest(right, rnd, depth - 1), 's': 'lit'}
+    return [nest(left, rnd, depth - 1), nest(right, rnd, depth - 1), 3.5]
 
 
 def lab_context(epoch: int, n: int) -> dict:
